@@ -105,6 +105,20 @@ def items(toks):
                     out.append((container, start, end, kn[0], kn[1], modname[0]))
                 elif htx[:2] == ['verus', '!']:
                     scan(i + 1, j, container)
+                elif htx[:2] == ['macro_rules', '!']:
+                    # body of a macro_rules! definition: items written in the transcriber(s) `( matcher ) => { items }` are located like
+                    # ordinary items (metavariables `$x` are single tokens; //@subst binds them to the arguments of the invocation)
+                    q = i + 1
+                    while q < j:
+                        if toks[q][1] in ('(', '[', '{'):
+                            c2 = _match_close(toks, q)
+                            if toks[q][1] == '{' and q >= 1 and toks[q - 1][1] == '=>':
+                                saved = modname[0]
+                                scan(q + 1, c2, container)
+                                modname[0] = saved
+                            q = c2 + 1
+                        else:
+                            q += 1
                 elif htx and htx[0].endswith('!') or (len(htx) >= 2 and htx[1] == '!'):
                     pass  # macro invocation
                 start = j + 1
